@@ -359,6 +359,10 @@ func runEdge(c *Ctx) {
 				ternary(fresh, "fresh", "vertex object "+core.Path(call.Common().Args[1])+" is not allocated here (it may carry a value from an earlier call)"))
 		}
 	}
+	// EDGE-C (thorough): abstract label closure over chains of pass-through hops (DESIGN §9.5)
+	if c.Tier == "thorough" {
+		runEdgeClosure(c, edges, kinds)
+	}
 	// EDGE-K: every rule class of the reference table is present
 	need := []string{"F1", "F2", "F3", "F4", "F5", "A", "G1", "G2", "G3", "G4", "G5", "G6", "G7", "G8", "G9"}
 	for _, cl := range need {
@@ -371,4 +375,119 @@ func runEdge(c *Ctx) {
 				fmt.Sprintf("%d edge site(s) of a class not in the reference table: %s", n, cl))
 		}
 	}
+}
+
+// runEdgeClosure lifts the per-edge obligations to chains of pass-through
+// hops (edges between label-carrying vertices; a hop through a function vertex
+// produces a new value and ends the chain). States are (kind, subtype class,
+// name class, type relation to the origin); the obligation is that no origin
+// with subtype s reaches, at identical type, a provider with a different
+// non-empty subtype s', and no named origin reaches a differently named
+// provider. Guards beyond the extracted relations are ignored (over-approximation:
+// more transitions, so a discharged closure is sound).
+func runEdgeClosure(c *Ctx, edges []EdgeRule, k *core.Kinds) {
+	type state struct {
+		kind, sub, name, trel string
+	}
+	type trans struct {
+		from, to string
+		rel      map[string]string
+		class    string
+	}
+	var ts []trans
+	for _, e := range edges {
+		if e.Reweight || len(e.CK) != 1 || len(e.PK) != 1 || !k.Label(e.CK[0]) || !k.Label(e.PK[0]) {
+			continue
+		}
+		ts = append(ts, trans{e.CK[0], e.PK[0], e.Rel, e.Class})
+	}
+	var origins []state
+	for _, sub := range []string{"none", "s"} {
+		origins = append(origins, state{k.Value, sub, "n", "same"}, state{k.Arg, sub, "none", "same"})
+	}
+	seen := map[state]string{}
+	type item struct {
+		st   state
+		path string
+		org  state
+	}
+	var work []item
+	for _, o := range origins {
+		work = append(work, item{o, "", o})
+	}
+	explored, bad := 0, ""
+	visited := map[[2]state]bool{}
+	for len(work) > 0 {
+		it := work[len(work)-1]
+		work = work[:len(work)-1]
+		if visited[[2]state{it.org, it.st}] {
+			continue
+		}
+		visited[[2]state{it.org, it.st}] = true
+		explored++
+		seen[it.st] = it.path
+		// violation test (every label-carrying vertex can be a provider terminal)
+		if it.path != "" && it.st.trel == "same" {
+			if it.org.sub == "s" && it.st.sub == "s2" {
+				bad = fmt.Sprintf("subtype s reaches a different subtype at identical type via %s", it.path)
+			}
+			if it.org.name == "n" && it.st.name == "n2" {
+				bad = fmt.Sprintf("name n reaches a differently named value via %s", it.path)
+			}
+		}
+		for _, t := range ts {
+			if t.from != it.st.kind {
+				continue
+			}
+			// subtype successors
+			var subs []string
+			switch t.rel["Subtype"] {
+			case "=":
+				subs = []string{it.st.sub}
+			case "consumer-empty":
+				if it.st.sub != "none" {
+					continue
+				}
+				subs = []string{"none", "s", "s2"}
+			case "provider-empty":
+				subs = []string{"none"}
+			default:
+				subs = []string{"none", "s", "s2"}
+			}
+			trel := it.st.trel
+			switch t.rel["Type"] {
+			case "=":
+			case "impl":
+				trel = "impl"
+			default:
+				trel = "other"
+			}
+			// name successors
+			var names []string
+			if t.to == k.Value {
+				switch {
+				case it.st.kind == k.Value && t.rel["Name"] == "=":
+					names = []string{it.st.name}
+				case it.st.kind == k.Value:
+					names = []string{it.st.name, "n2"}
+				default:
+					names = []string{"n", "n2"}
+					if it.org.name == "none" {
+						names = []string{"n"}
+					}
+				}
+			} else {
+				names = []string{"none"}
+			}
+			for _, sb := range subs {
+				for _, nm := range names {
+					work = append(work, item{state{t.to, sb, nm, trel}, it.path + ternary(it.path == "", "", ",") + t.class, it.org})
+				}
+			}
+		}
+	}
+	c.R.Note("EDGE", "label closure: %d (origin,state) pairs explored over %d pass-through rules", explored, len(ts))
+	c.R.Add("EDGE-C", "closure|subtype-and-name-preserved-along-chains", "(abstract label closure)", "-", bad == "",
+		"along any chain of pass-through edges a subtype never turns into a different non-empty subtype at identical type, and a name never turns into a different name",
+		ternary(bad == "", fmt.Sprintf("%d abstract states explored exhaustively, no violating chain", explored), bad))
 }
